@@ -595,15 +595,29 @@ def _batched_spec(values: List[Any], n: int, strict: bool):
     return ys, len(values), "return"
 
 
+def _batched_like_313(src, n: int, strict: bool):
+    """itertools.batched as of Python 3.13 (``strict``), written over the instrumented source"""
+    if n < 1:
+        raise ValueError("n must be at least one")
+    it = iter(src)
+    while True:
+        batch = tuple(_it.islice(it, n))
+        if not batch:
+            return
+        if strict and len(batch) != n:
+            raise ValueError("batched(): incomplete batch")
+        yield batch
+
+
 def _batched_cells():
     for n in (0, 1, 2, 3):
         for length in range(0, 6):
             for strict in (False, True):
                 def oracle(n=n, length=length, strict=strict):
-                    ys, taken, end = _batched_spec(_items(0, length), n, strict)
-                    if n < 1:
-                        taken = 0
-                    return ys, [taken], [], end
+                    src = _Src(_items(0, length))
+                    if not strict and hasattr(_it, "batched"):
+                        return _observe(lambda: _it.batched(src, n), [src], [])
+                    return _observe(lambda: _batched_like_313(src, n, strict), [src], [])
                 yield Cell(f"{length} items, n={n}, strict={strict}", [("IT", 0), n], {"strict": strict}, {0: length}, oracle)
 
 
@@ -1071,8 +1085,15 @@ def aggregate_tables(ctx, rid: str, fields=RESULT_AND_CALLS) -> None:
     _tables(ctx, rid, OBJECT_AGGREGATES, "coroutine", "agg_cells", fields, make_ops=factory)
 
 
-def fault_tables(ctx, rid: str) -> None:
+def fault_tables(ctx, rid: str, items_only: bool = False) -> None:
     """C06 as tables: every cell of the tool and aggregation tables once more per use of a source / user callable, that use failing"""
+    if items_only:
+        # C01: "terminates or raises the same": with a source / callable that fails at some use, the same items come out and the
+        # operation ends the same way (a tool that uses its callable where the counterpart does not fails where that one goes on)
+        ctx.rule(rid, "fault cells, items only: for every use of a source / user callable that either side makes, with that use "
+                      "raising, the items yielded and the way the tool ends equal the stdlib tool's (R06.10, shared)")
+        _tables(ctx, rid, TOOLS, "asyncgen", "fault_base_cells", ITEMS_AND_END, faults=True, fault_fields=("yields", "end", "result"))
+        return
     ctx.rule(rid, "fault cells: every cell of the tool and aggregation tables is evaluated once more for each use of a source (a request "
                   "that finds it exhausted included) or of the user's callable, with exactly that use raising; the items delivered "
                   "before, the uses made (none after the failure) and the exception that ends the operation equal those of the stdlib "
@@ -1100,7 +1121,8 @@ def tool_tables(ctx, rid: str, fields=CONSUMPTION) -> None:
     _tables(ctx, rid, TOOLS, "asyncgen", "tool_cells", fields)
 
 
-def _tables(ctx, rid: str, tools, kind: str, counter: str, fields=ALL, make_ops=None, faults: bool = False) -> None:
+def _tables(ctx, rid: str, tools, kind: str, counter: str, fields=ALL, make_ops=None, faults: bool = False,
+            fault_fields=None) -> None:
     """``faults``: every cell whose fault-free trace equals the counterpart's completely is evaluated again once per use
     of a source or user callable, with exactly that use failing (exception class Boom), and compared with the counterpart
     whose same use fails: what was yielded before, what was used, and that the very exception ends the operation."""
@@ -1116,7 +1138,8 @@ def _tables(ctx, rid: str, tools, kind: str, counter: str, fields=ALL, make_ops=
         cfg = cfg_of(u)
         name = short.split(".")[-1]
         std = STDLIB_NAME.get(short, name)
-        bad = decided = total = fault_bad = fault_decided = 0
+        bad = decided = total = fault_bad = fault_decided = bad_other = 0
+        early_reported = False
 
         def evaluate(cell, fault_at=None):
             """('skip' | 'undecided' | 'endless' | 'ok', got, want)"""
@@ -1190,14 +1213,35 @@ def _tables(ctx, rid: str, tools, kind: str, counter: str, fields=ALL, make_ops=
             parts = differences(got, exp, fields)
             if parts:
                 bad += 1
-                if bad <= 2:
-                    ctx.fail(rid, real, name, f"[{name}: {cell.label}] differs from the stdlib {std}", witness="; ".join(parts)[:600])
+                construct = name
+                differing = {label for label, g, w in zip(ALL, got, exp) if g != w and label in fields}
+                if differing <= {"end-of-source detections", "interleaving"} and got[5] is not None and exp[5] is not None \
+                        and all(g <= w for g, w in zip(got[5], exp[5])) and (got[7] is None or exp[7][:len(got[7])] == got[7]):
+                    # everything agrees up to the point where the evaluated tool has finished: the counterpart asks its
+                    # (exhausted) source once more before it finishes as well
+                    construct = f"{name}: finishes without asking its exhausted source again where the stdlib tool asks once more"
+                    early = True
+                else:
+                    early = False
+                if (early and not early_reported) or (not early and bad_other < 2):
+                    ctx.fail(rid, real, construct, f"[{name}: {cell.label}] differs from the stdlib {std}", witness="; ".join(parts)[:600])
+                if early:
+                    early_reported = True
+                else:
+                    bad_other += 1
                 continue
-            if not faults or (kind == "asyncgen" and differences(got, exp, USES)) or got[6] != exp[6] or not exp[6]:
+            if not faults:
+                continue
+            if fault_fields is None and ((kind == "asyncgen" and differences(got, exp, USES)) or got[6] != exp[6] or not exp[6]):
                 continue  # (the same failing use must exist on both sides)
-            positions = [(what, key, j) for (what, key), n in sorted(exp[6].items(), key=str) for j in range(1, n + 1)]
+            # every use either side makes (a use only the evaluated tool makes fails there and nowhere in the counterpart)
+            uses = {k_: max(exp[6].get(k_, 0), got[6].get(k_, 0) if fault_fields is not None else 0) for k_ in set(exp[6]) | set(got[6])}
+            # (a source fails at a request for an item or at the request that would have found it exhausted; an iterator
+            # that has reported its end keeps doing so - the iterator protocol -, so later requests are no fault positions)
+            positions = [(what, key, j) for (what, key), n in sorted(uses.items(), key=str) for j in range(1, n + 1)
+                         if what != "poll" or j <= cell.lengths.get(key, 0) + 1]
             for at in positions:
-                k = f"{'request' if at[0] == 'poll' else 'call'} {at[2]} of {exp[6][at[:2]]} " + \
+                k = f"{'request' if at[0] == 'poll' else 'call'} {at[2]} of {uses[at[:2]]} " + \
                     (f"to source {at[1]}" if at[0] == "poll" else f"of the callable {at[1]}")
                 ctx.count("fault_cells")
                 status, fgot, fexp = evaluate(cell, fault_at=at)
@@ -1214,11 +1258,11 @@ def _tables(ctx, rid: str, tools, kind: str, counter: str, fields=ALL, make_ops=
                 ctx.count("fault_cells_decided")
                 # a tool is in lock-step with its counterpart (C05), so everything up to the failure is comparable; an
                 # aggregation may interleave its uses differently: what it delivers and how it ends is compared
-                parts = differences(fgot, fexp, FAULT_FIELDS if kind == "asyncgen" else ("end", "result"))
+                parts = differences(fgot, fexp, fault_fields or (FAULT_FIELDS if kind == "asyncgen" else ("end", "result")))
                 tr = fgot[8]
                 after = [e for e in tr[[e[0] for e in tr].index("failed") + 1:] if e[0] in ("poll", "call")] \
                     if any(e[0] == "failed" for e in tr) else []
-                if after:
+                if after and fault_fields is None:
                     parts.append(f"used again after the failure: {_show(after[:3])}")
                 if parts:
                     fault_bad += 1
